@@ -45,12 +45,13 @@ def wire : Kind → Val → Option Bytes
   | .addrPort, .addrPort (.v4 a b c d p) =>
     if p < 65536 then some [a, b, c, d, UInt8.ofNat (p % 256), UInt8.ofNat (p / 256)] else none
   | .mac, .mac bs | .macAddress, .mac bs => if bs.length = 6 then some bs else none
-  | .date, .date none | .datePtr, .datePtr none | .datePtr, .datePtr (some none) => some [0, 0, 0, 0]
+  | .datePtr, .datePtr none | .dateTimePtr, .dateTimePtr none | .hhmmPtr, .hhmmPtr none =>
+    some []                                     -- a nil pointer contributes no bytes: its range stays zero
+  | .date, .date none | .datePtr, .datePtr (some none) => some [0, 0, 0, 0]
   | .date, .date (some d) | .datePtr, .datePtr (some (some d)) =>
     if dateInDomain d then some (bcdDate d) else none
   | .dateTime, .dateTime none | .dateTimePtr, .dateTimePtr (some none) =>
     some [0x00, 0x01, 0x01, 0x01, 0, 0, 0]           -- the zero instant is 0001-01-01 00:00:00
-  | .dateTimePtr, .dateTimePtr none => some [0, 0, 0, 0, 0, 0, 0]
   | .dateTime, .dateTime (some d) | .dateTimePtr, .dateTimePtr (some (some d)) =>
     if dateTimeInDomain d then some (bcdDateTime d) else none
   | .sysDate, .sysDate (some d) =>
@@ -59,7 +60,6 @@ def wire : Kind → Val → Option Bytes
     if t.h < 24 && t.m < 60 && t.s < 60 then some [bcd2 t.h, bcd2 t.m, bcd2 t.s] else none
   | .hhmm, .hhmm t | .hhmmPtr, .hhmmPtr (some t) =>
     if hhmmInDomain t then some [bcd2 t.h.toNat, bcd2 t.m.toNat] else none
-  | .hhmmPtr, .hhmmPtr none => some [0, 0]
   | .pin, .u32 v =>
     if v ≤ 999999 then some [UInt8.ofNat (v % 256), UInt8.ofNat (v / 256 % 256), UInt8.ofNat (v / 65536)] else none
   | .version, .u16 v => if v < 65536 then some [UInt8.ofNat (v / 256), UInt8.ofNat (v % 256)] else none
@@ -77,26 +77,30 @@ def tagValue (t : String) : Option Nat :=
   | cs => if cs.isEmpty ∨ ¬ cs.all Char.isDigit then none
           else (parseDigits 10 cs 0).bind fun n => if n < 256 then some n else none
 
-def leafRange : Leaf → Option (Nat × Nat)
+/-- the byte range a leaf owns: SOM owns byte 0, MsgType byte 1, an offset field its width -/
+def extent : Leaf → Option (Nat × Nat)
+  | .som _ => some (0, 1)
+  | .msgType _ => some (1, 1)
   | .at off k _ => some (off, k.width)
-  | _ => none
+  | .skip => none
 
 def tagsOk : Leaf → Bool
   | .som (some t) | .msgType (some t) | .at _ .u8 (some t) => (tagValue t).isSome
-  | .at _ _ (some _) => true        -- a value tag on another kind is ignored by the codec
-  | _ => true
+  | _ => true                        -- a value tag on another kind is ignored by the codec
 
 def rangesDisjoint : List (Nat × Nat) → Bool
   | [] => true
   | (o, w) :: r => r.all (fun (o', w') => o + w ≤ o' || o' + w' ≤ o) && rangesDisjoint r
 
-/-- well-formed layout: every field at 2..63, inside the 64 bytes, no two overlapping, at most
-    one SOM and one MsgType field, tags in the decimal / hex grammar -/
+def fieldsFrom2 : Leaf → Bool
+  | .at off _ _ => 2 ≤ off
+  | _ => true
+
+/-- well-formed layout: every field at 2..63 and inside the 64 bytes, no two ranges overlapping
+    (hence at most one SOM and one MsgType field), tags in the decimal / hex grammar -/
 def wf (ls : List Leaf) : Bool :=
-  let rs := ls.filterMap leafRange
-  rs.all (fun (o, w) => 2 ≤ o && o + w ≤ 64) && rangesDisjoint rs && ls.all tagsOk &&
-  (ls.filter (fun l => match l with | .som _ => true | _ => false)).length ≤ 1 &&
-  (ls.filter (fun l => match l with | .msgType _ => true | _ => false)).length ≤ 1
+  let rs := ls.filterMap extent
+  rs.all (fun (o, w) => o + w ≤ 64) && rangesDisjoint rs && ls.all tagsOk && ls.all fieldsFrom2
 
 /-- the bytes a leaf contributes: (offset, bytes) -/
 def leafWire : Leaf → Val → Option (Nat × Bytes)
@@ -116,11 +120,16 @@ def imageByte (pieces : List (Nat × Bytes)) (i : Nat) : UInt8 :=
   | some (o, b) => b.getD (i - o) 0
   | none => if i = 0 then 0x17 else 0
 
+def pieces : List Leaf → List Val → Option (List (Nat × Bytes))
+  | [], [] => some []
+  | l :: ls, v :: vs =>
+    (match leafWire l v, pieces ls vs with
+     | some p, some ps => some (p :: ps)
+     | _, _ => none)
+  | _, _ => none
+
 def image (ls : List Leaf) (vs : List Val) : Option Bytes :=
-  if ls.length ≠ vs.length then none else
-  match (ls.zip vs).mapM (fun (l, v) => leafWire l v) with
-  | none => none
-  | some pieces => some ((List.range 64).map (imageByte pieces))
+  (pieces ls vs).map fun ps => (List.range 64).map (imageByte ps)
 
 /-! ### decoding relation (C02 / C18): what a reader of a field may return -/
 
